@@ -197,8 +197,8 @@ def _compile_many(jobs):
         list(ex.map(_run, jobs))
 
 
-def gen():
-    """native table generator: prdata executable"""
+def gen(ndebug=False):
+    """native table generator: prdata executable (ndebug: the same sources built the way a release build defines NDEBUG)"""
     def mk(d):
         _write_config(d)
         _, prdata, _ = _meson_lists()
@@ -206,10 +206,10 @@ def gen():
         for s in prdata + ['pr_data.c']:
             o = os.path.join(d, s.replace('.c', '.o'))
             objs.append(o)
-            jobs.append(['gcc', '-O1', '-g'] + CORE + _incs(d) + ['-c', os.path.join(REPO, 'src', s), '-o', o])
+            jobs.append(['gcc', '-O1', '-g'] + (['-DNDEBUG'] if ndebug else []) + CORE + _incs(d) + ['-c', os.path.join(REPO, 'src', s), '-o', o])
         _compile_many(jobs)
         _run(['gcc', '-o', os.path.join(d, 'prdata')] + objs + ['-lm'])
-    return _target('gen', mk)
+    return _target('gen-ndebug' if ndebug else 'gen', mk)
 
 
 def kissel_dat():
@@ -238,8 +238,8 @@ def kissel_path(config):
     return kissel_dat() if config == 'kissel' else os.path.join(REPO, 'data', 'kissel_pe.dat')
 
 
-def inline(config):
-    g = gen()
+def inline(config, ndebug=False):
+    g = gen(ndebug)
 
     def mk(d):
         tmp = tempfile.mkdtemp(prefix='xv-root-')
@@ -248,7 +248,7 @@ def inline(config):
             _run([os.path.join(g, 'prdata'), tmp, os.path.join(d, 'xrayglob_inline.c')])
         finally:
             shutil.rmtree(tmp, ignore_errors=True)
-    return os.path.join(_target('inline-' + config, mk), 'xrayglob_inline.c')
+    return os.path.join(_target('inline-' + config + ('-ndebug' if ndebug else ''), mk), 'xrayglob_inline.c')
 
 
 def lib(config, flavour):
